@@ -8,11 +8,12 @@ PROFILE = gen.Profile(
     max_states=5, extra_trans=(1, 8), p_multi_event=0.45, max_events=4,
     p_group=dict(validators=0.1, cond=0.3, unless=0.2, before=0.2, on=0.3, after=0.2, enter=0.2, exit=0.2),
     p_conv=0.15, p_nested=0.1, p_raise=0.03, p_validator_raise=0.05, p_unknown_event=0.1, n_ops=(4, 14),
-    p_rtc_off=0.25, p_allow=0.45,
+    p_rtc_off=0.25, p_allow=0.45, p_reconstruct=0.06,
 )
 PROFILE_ASYNC = gen.Profile(**{**PROFILE.__dict__, "p_coro": 0.5, "drivers": ("facade", "loop"), "p_rtc_off": 0.0})
 
 STYLES = ["send", "method", "events", "allowed", "bound"]
+STYLES_MODEL = STYLES + ["modelbound", "modelbound"]     # the triggers bound onto the model (`bind_events_to(model)`)
 
 
 def attr_names():
@@ -35,6 +36,8 @@ def mutate(rng, s):
         ATTRS = attr_names()
     ops = []
     k = 100
+    s.bind_model = rng.random() < 0.35
+    styles = STYLES_MODEL if s.bind_model else STYLES
     for op in s.ops:
         if op[0] == "send":
             r = rng.random()
@@ -48,13 +51,17 @@ def mutate(rng, s):
                     ops.append(("send", k, "send"))
                     k += 1
             else:
-                ops.append(("send", op[1], rng.choice(STYLES)))
+                ops.append(("send", op[1], rng.choice(styles)))
             if rng.random() < 0.35:
                 ops.append(("allowed",))
         else:
             ops.append(op)
     ops.insert(1, ("events",))
     ops.insert(1, ("allowed",))
+    if s.bind_model:
+        # (a second machine created over a model whose bound triggers still belong to the first one, and then
+        # copied, drags the first machine into the copy through the model: DESIGN 11.6, not generated)
+        ops = [("reconstruct", "copy") if o[0] == "reconstruct" else o for o in ops]
     s.ops = ops
 
 
